@@ -377,4 +377,113 @@ public class GrolPrims {
         return new StringValue(sb.toString());
     }
     // ================================================================ C14 block - end
+
+    // ---- GrolLib block (extension functions of the reference semantics) - begin
+    public static Value F64Floor(final Value a) { return D(Math.floor(d(a))); }
+    public static Value F64Ceil(final Value a) { return D(Math.ceil(d(a))); }
+    public static Value F64Trunc(final Value a) { double x = d(a); return D(x < 0 ? Math.ceil(x) : Math.floor(x)); }
+    public static Value F64Sqrt(final Value a) { return D(Math.sqrt(d(a))); } // correctly rounded in Java and in Go
+    // Go math.Round: half away from zero
+    private static double goRound(final double x) {
+        if (Double.isNaN(x) || Double.isInfinite(x)) { return x; }
+        double t = x < 0 ? Math.ceil(x) : Math.floor(x);
+        if (Math.abs(x - t) >= 0.5) { t += Math.copySign(1.0, x); }
+        return t;
+    }
+    // safecast.Convert[int64](t): "" when out of range / NaN, else the decimal string
+    private static Value toI64(final double t) {
+        if (Double.isNaN(t) || t >= 9223372036854775808.0 || t < -9223372036854775808.0) { return new StringValue(""); }
+        return L((long) t);
+    }
+    public static Value F64TruncToI64(final Value a) { double x = d(a); return toI64(x < 0 ? Math.ceil(x) : Math.floor(x)); }
+    public static Value F64RoundToI64(final Value a) { return toI64(goRound(d(a))); }
+    // Go strconv.ParseInt(s, 0, 64) without underscores: sign, 0x 0o 0b 0 prefixes; "" when it fails
+    public static Value I64ParseBase0(final Value a) {
+        String x = str(a);
+        try {
+            if (x.isEmpty() || x.indexOf('_') >= 0) { return new StringValue(""); }
+            boolean neg = false;
+            int i = 0;
+            if (x.charAt(0) == '+' || x.charAt(0) == '-') { neg = x.charAt(0) == '-'; i = 1; }
+            String body = x.substring(i);
+            if (body.isEmpty()) { return new StringValue(""); }
+            int radix = 10;
+            String lower = body.toLowerCase();
+            if (lower.startsWith("0x")) { radix = 16; body = body.substring(2); }
+            else if (lower.startsWith("0b")) { radix = 2; body = body.substring(2); }
+            else if (lower.startsWith("0o")) { radix = 8; body = body.substring(2); }
+            else if (body.length() > 1 && body.charAt(0) == '0') { radix = 8; body = body.substring(1); }
+            if (body.isEmpty()) { return new StringValue(""); }
+            for (int k = 0; k < body.length(); k++) { if (Character.digit(body.charAt(k), radix) < 0 || body.charAt(k) > 0x7f) { return new StringValue(""); } }
+            java.math.BigInteger v = new java.math.BigInteger(body, radix);
+            if (neg) { v = v.negate(); }
+            if (v.bitLength() > 63) { return new StringValue(""); }
+            return L(v.longValue());
+        } catch (RuntimeException e) {
+            return new StringValue("");
+        }
+    }
+    // Go []rune(s) re-encoded one by one (invalid bytes become U+FFFD)
+    public static Value StrRunes(final Value a) {
+        String x = str(a);
+        java.util.ArrayList<Value> out = new java.util.ArrayList<>();
+        int i = 0;
+        while (i < x.length()) {
+            int[] rw = decodeRune(x, i);
+            StringBuilder sb = new StringBuilder();
+            encodeRune(sb, rw[0]);
+            out.add(new StringValue(sb.toString()));
+            i += rw[1];
+        }
+        return new TupleValue(out.toArray(new Value[0]));
+    }
+    public static Value StrRuneValues(final Value a) {
+        String x = str(a);
+        java.util.ArrayList<Value> out = new java.util.ArrayList<>();
+        int i = 0;
+        while (i < x.length()) { int[] rw = decodeRune(x, i); out.add(IntValue.gen(rw[0])); i += rw[1]; }
+        return new TupleValue(out.toArray(new Value[0]));
+    }
+    // Go strings.Split(s, sep): sep "" explodes into UTF-8 sequences (invalid bytes one by one, kept as they are)
+    public static Value StrSplit(final Value a, final Value b) {
+        String x = str(a), sep = str(b);
+        java.util.ArrayList<Value> out = new java.util.ArrayList<>();
+        if (sep.isEmpty()) {
+            int i = 0;
+            while (i < x.length()) { int[] rw = decodeRune(x, i); out.add(new StringValue(x.substring(i, i + rw[1]))); i += rw[1]; }
+            return new TupleValue(out.toArray(new Value[0]));
+        }
+        int from = 0;
+        while (true) {
+            int k = x.indexOf(sep, from);
+            if (k < 0) { out.add(new StringValue(x.substring(from))); break; }
+            out.add(new StringValue(x.substring(from, k)));
+            from = k + sep.length();
+        }
+        return new TupleValue(out.toArray(new Value[0]));
+    }
+    // Go strings.Trim / TrimLeft / TrimRight (mode 0 / 1 / 2): cutset is a set of runes
+    public static Value StrTrim(final Value a, final Value cut, final Value mode) {
+        String x = str(a), c = str(cut);
+        java.util.HashSet<Integer> set = new java.util.HashSet<>();
+        for (int i = 0; i < c.length();) { int[] rw = decodeRune(c, i); set.add(rw[0]); i += rw[1]; }
+        int m = (int) l(mode);
+        int start = 0, end = x.length();
+        if (m == 0 || m == 1) {
+            while (start < end) { int[] rw = decodeRune(x, start); if (!set.contains(rw[0])) { break; } start += rw[1]; }
+        }
+        if (m == 0 || m == 2) {
+            while (end > start) {
+                // last rune: scan back over continuation bytes (at most 3)
+                int k = end - 1, lim = Math.max(start, end - 4);
+                while (k > lim && (x.charAt(k) & 0xC0) == 0x80) { k--; }
+                int[] rw = decodeRune(x, k);
+                if (k + rw[1] != end) { k = end - 1; rw = new int[] {0xFFFD, 1}; }
+                if (!set.contains(rw[0])) { break; }
+                end = k;
+            }
+        }
+        return new StringValue(x.substring(start, end));
+    }
+    // ---- GrolLib block - end
 }
